@@ -281,6 +281,9 @@ func (c *Ctx) returnsNonNilMapWhen(call *ssa.Call, idx int, at ssa.Instruction) 
 				if t.at != nil {
 					good++
 				}
+				if !t.unknown && pol == flagTrue && c.okPairedDictY2(t.m, t.flag) {
+					continue // `v, ok := x.(Dict); return v, ok`: the flag returned is the one that says v is a boxed Dict (ext_y2.go)
+				}
 				if t.unknown || t.m == nil || !c.mapNonNil(t.m, t.at, map[ssa.Value]bool{}) {
 					okAll = false
 					break
